@@ -10,7 +10,7 @@ for d in seeded/C*; do
   n=$(basename $d); [ -f $d/patch.diff ] || continue
   t=$(python3 -c "import json;print(json.load(open('$d/meta.json'))['property'])")
   [ -z "$(git -C /repo status --porcelain)" ] || { echo "/repo not clean"; exit 2; }
-  git -C /repo apply $d/patch.diff || { echo "| $n | $t | patch does not apply |" >> $out; continue; }
+  git -C /repo apply /verif/$d/patch.diff || { echo "| $n | $t | patch does not apply |" >> $out; continue; }
   row=""
   for p in $(fam $t); do
     cp evidence/$p.json .cache/evidence-$p.keep 2>/dev/null
